@@ -203,8 +203,13 @@ func checkRootedClean(c *Ctx, r *Report) {
 				continue
 			}
 			for _, res := range retResults(ret) {
+				rootedWhy = ""
 				if !cleanedRooted(c, res, map[*ssa.Parameter]bool{}, 0) {
 					ok = false
+					if rootedWhy != "" {
+						why = rootedWhy
+						continue
+					}
 					why = fmt.Sprintf("the value returned at %s (%s) is not cleaned after being anchored at \"/\": a destination with leading \"..\" components would stay above the root (\"/../etc/x\") and neither collide with \"/etc/x\" nor get its real parents", c.instrPos(ret), shorten(valueExpr(c, res, 0), 100))
 				}
 			}
@@ -213,6 +218,8 @@ func checkRootedClean(c *Ctx, r *Report) {
 	}
 	r.Floor("G-rooted", n, 2)
 }
+
+var rootedWhy string
 
 func isRootedInput(c *Ctx, v ssa.Value, env map[*ssa.Parameter]bool, d int) bool {
 	switch x := v.(type) {
@@ -244,7 +251,30 @@ func cleanedRooted(c *Ctx, v ssa.Value, env map[*ssa.Parameter]bool, d int) bool
 		return len(x.Edges) > 0
 	case *ssa.BinOp:
 		// a suffix appended to a cleaned, rooted path
-		return x.Op == token.ADD && cleanedRooted(c, x.X, env, d+1)
+		if x.Op != token.ADD || !cleanedRooted(c, x.X, env, d+1) {
+			return false
+		}
+		// ... a "/" suffix doubles the slash when the cleaned path is the root
+		// itself, unless the root is told apart first
+		if k, ok := x.Y.(*ssa.Const); ok && strings.HasPrefix(constOrEmpty(k), "/") {
+			guarded := false
+			if x.X.Referrers() != nil {
+				for _, ref := range *x.X.Referrers() {
+					if cmp, ok := ref.(*ssa.BinOp); ok && (cmp.Op == token.EQL || cmp.Op == token.NEQ) {
+						for _, side := range []ssa.Value{cmp.X, cmp.Y} {
+							if kk, ok := side.(*ssa.Const); ok && constOrEmpty(kk) == "/" {
+								guarded = true
+							}
+						}
+					}
+				}
+			}
+			if !guarded {
+				rootedWhy = fmt.Sprintf("at %s a \"/\" is appended to a cleaned path without telling the root apart: for the root the result is \"//\", which is not a clean path and matches no key of the plan", c.instrPos(x))
+				return false
+			}
+		}
+		return true
 	case *ssa.Call:
 		o := calleeObj(x)
 		if o == nil {
@@ -284,7 +314,6 @@ func cleanedRooted(c *Ctx, v ssa.Value, env map[*ssa.Parameter]bool, d int) bool
 	}
 	return false
 }
-
 
 // baseIsDirectory traces every definition of a Rel base back to its leaves.
 func baseIsDirectory(c *Ctx, v ssa.Value, visited map[*ssa.Function]bool) (bool, string) {
